@@ -157,6 +157,31 @@ def extra(report, env):
         r = e2e.new_parser().parse(text)
         if r['error'] != '#NAME?' and len(fails) < 5:
             fails.append({'formula': text, 'detail': 'a call to an unregistered function gives %r, expected #NAME?' % (r,)})
+    # registrations made after a name has already been used take effect: a custom function overriding a built-in (or an earlier custom
+    # function) that earlier formulas called, a variable re-set between evaluations, a custom function registered after the name failed
+    ph = e2e.new_parser()
+    steps = [('SUM(1,2)', 3), ('MAX(4,9)', 9), ('UNDEF(1)', '#NAME?'), ('later', '#NAME?')]
+    ph.set_variable('v', 1)
+    steps.append(('v', 1))
+    for text, want in steps:
+        cases += 1
+        r = ph.parse(text)
+        if (r['error'] if isinstance(want, str) else r['result']) != want and len(fails) < 5:
+            fails.append({'formula': text, 'detail': 'before any re-registration: expected %r got %r' % (want, r)})
+    ph.set_function('SUM', lambda *a: 'custom sum')
+    ph.set_function('UNDEF', lambda *a: 'now defined')
+    ph.set_variable('later', 'now set')
+    ph.set_variable('v', 2)
+    for text, want in (('SUM(1,2)', 'custom sum'), ('MAX(4,9)', 9), ('UNDEF(1)', 'now defined'), ('later', 'now set'), ('v', 2), ('SUM(1)&UNDEF()', 'custom sumnow defined')):
+        cases += 1
+        r = ph.parse(text)
+        if r['result'] != want and len(fails) < 5:
+            fails.append({'formula': text, 'detail': 'after set_function / set_variable on a name already used by earlier formulas: expected %r got %r' % (want, r)})
+    ph.set_function('SUM', lambda *a: 'second custom sum')
+    cases += 1
+    r = ph.parse('SUM(1,2)')
+    if r['result'] != 'second custom sum' and len(fails) < 5:
+        fails.append({'formula': 'SUM(1,2)', 'detail': 'after registering a second custom function under the same name: %r' % (r,)})
     # bindings of one parser are invisible to every other parser (also TRUE/FALSE/NULL shadowing)
     pa, pb = e2e.new_parser(), e2e.new_parser()
     pa.set_variable('rate', 0.25)
@@ -176,7 +201,7 @@ def extra(report, env):
         if not formulas.is_supported(n) and len(fails) < 5:
             fails.append({'formula': n, 'detail': 'decorator name not in the run-time registry'})
     bounded(report, 'C09.names', 'seeded identifier-shaped names x 13 values of any type, predefined names, custom functions (precedence, call log), '
-            '11 formulas calling unregistered functions, every decorator name against the run-time registry', cases, fails)
+            'registrations made after a name was used (override of a built-in / of a custom function, late definitions), 11 formulas calling unregistered functions, every decorator name against the run-time registry', cases, fails)
 
 
 def replay(rp):
